@@ -4,7 +4,22 @@ Proof. exact Base64Proofs.C18_b64. Qed.
 Print Assumptions C18_b64.
 
 From SM Require Import Model.Detector Proofs.LocateProofs.
-Check C18_locate_lines.
+(* reference discovery: the FIRST line that begins with either prefix; legacy iff it begins "//@"; the URL is the rest of
+   the line, trimmed; nothing iff no line begins that way (for any white-space class and any two prefixes) *)
+Theorem C18_locate_lines : forall (is_ws : Z -> bool) (p_new p_legacy : bytes) (plen : nat) (ls : list bytes),
+  match Detector.locate_lines is_ws p_new p_legacy plen ls with
+  | Some r =>
+      exists (pre : list bytes) (l : bytes) (post : list bytes),
+        ls = pre ++ l :: post /\
+        Forall (fun x : bytes => has_prefix p_new p_legacy x = false) pre /\
+        has_prefix p_new p_legacy l = true /\
+        r = (if starts_with l [47; 47; 64]
+             then Detector.LegacyRef (Detector.trim is_ws (skipn plen l))
+             else Detector.Ref (Detector.trim is_ws (skipn plen l)))
+  | None => Forall (fun l : bytes => has_prefix p_new p_legacy l = false) ls
+  end.
+Proof. exact LocateProofs.C18_locate_lines. Qed.
+Print Assumptions C18_locate_lines.
 From SM Require Import Model.DataUrl Proofs.DataUrlProofs.
 Theorem C18_data_url : forall (A : Type) (encode : A -> bytes) (decode_slice : bytes -> outcome A) m,
   Forall byte (encode m) ->
